@@ -570,9 +570,13 @@ fn gen_history(r: &mut Rng, pool: &[Vec<u8>], paths: &[&str]) -> (Tree, Tree, Ve
             let q = format!("{}.conflict-vphost-{}", p, &hex(&h32(&lo))[..12]);
             a.clear();
             b.clear();
+            // the edit is of another length, or (half of the time) of exactly the loser's length; half of the time a run
+            // in between carries the edit to both sides, so that the copy itself is not part of the second plan
+            let edit: Vec<u8> = if r.chance(1, 2) { b"edited by the user".to_vec() } else { lo.iter().map(|x| x ^ 0x15).collect() };
             ops = vec![Op::Write(true, p.clone(), lo.clone(), false), Op::Write(false, p.clone(), mid.clone(), false), Op::Run,
-                       Op::Write(r.chance(1, 2), q, b"edited by the user".to_vec(), false),
-                       Op::Write(true, p.clone(), lo.clone(), false), Op::Write(false, p.clone(), hi.clone(), false), Op::Run, Op::Run];
+                       Op::Write(r.chance(1, 2), q, edit, false)];
+            if r.chance(1, 2) { ops.push(Op::Run); }
+            ops.extend(vec![Op::Write(true, p.clone(), lo.clone(), false), Op::Write(false, p.clone(), hi.clone(), false), Op::Run, Op::Run]);
         }
         4 => {
             // one side is edited to other bytes of the same length and carries the opposite side's exact mtime
